@@ -644,7 +644,12 @@ pub fn invalid_atoms(schema: &Value, value: &Value, defs: &Defs, depth: u32, out
                             .and_then(|r| r.as_array())
                             .map(|r| r.iter().all(|k| k.as_str().map(|k| members.contains_key(k)).unwrap_or(true)))
                             .unwrap_or(true);
-                        declared && required_present && !members.is_empty()
+                        // constant-valued members (tags) of the alternative agree with the value
+                        let tags_agree = props.iter().all(|(k, ps)| match (single_string_enum(ps), members.get(k)) {
+                            (Some(c), Some(Value::String(v))) => c == v,
+                            _ => true,
+                        });
+                        declared && required_present && tags_agree && !members.is_empty()
                     })
                     .collect();
                 if shaped.len() == 1 {
